@@ -26,8 +26,8 @@ ASSUMPTIONS = [
     "labels: Grid.getLabel ({:03d} formatting incl. sign and widths > 3) and locatorLabelToIndices are modelled over the "
     "alphabet {'-', digits, other}; the tie sends labels made of digits and '-' only (Python int() also accepts "
     "whitespace, '+', '_' and non-ASCII digits, which no label produced by armi contains)",
-    "labels of cells with a negative index cannot be decoded (known finding label-roundtrip-negative-index); the model "
-    "reproduces it (theorem label_negative_first_undecodable), the round-trip theorem covers indices >= 0 of any size",
+    "labels: the decoder follows the repaired code (9ee1acd: grammar (-?\\d+)(?:-(-?\\d+))*, a dash that opens the label or "
+    "follows a separator is a sign); label_roundtrip covers ALL integer indices",
     "generic grids (Model/Grid.lean): geomType / symmetry strings are passed to the model already normalised "
     "(str(GeomType.fromAny(x)), str(SymmetryType.fromAny(x))); idempotence of that normalisation is exercised by the "
     "rebuild oracle, not modelled",
